@@ -549,6 +549,20 @@ fn scale_values() -> Vec<(String, Val)> {
         }
         out.push((format!("{} sets", n), Val { meta: Some(long.clone()), clip: (0..257).map(|i| if i % 2 == 0 { Some(format!("{}{}", long, i)) } else { None }).collect(), sets }));
     }
+    // files whose sets TOGETHER exceed 2^16 words (a retail-sized file: thousands of labelled sets
+    // of a few dozen names; a few hundred fully dense sets) — no single set is large
+    for (n, per_set) in [(2_300usize, 28usize), (2_341, 27), (256, 256), (22_000, 1)] {
+        let mut sets = Vec::with_capacity(n);
+        for i in 0..n {
+            let mut set: Vec<Option<String>> = vec![None; 257];
+            set[0] = Some(format!("uAnim_{:05}", i));
+            for k in 0..per_set {
+                set[1 + (i * 7 + k * (256 / per_set.max(1)).max(1)) % 256] = Some(format!("a{}", (i + k) % 97));
+            }
+            sets.push(set);
+        }
+        out.push((format!("{} sets of {} names (more than 2^16 words in all)", n, per_set), Val { meta: Some("m".into()), clip: vec![None; 257], sets }));
+    }
     out
 }
 
